@@ -6,10 +6,16 @@
         op  = <sid>:<expected>:<st>:<dt>      ops separated by ';'
         init lists the shard objects that exist before the run
         sched = the clients in the order in which they perform one object-store
-                request each; `local` = a sequential history for the in-memory backend
+                request each; a suffix injects a transport fault into that request:
+                <c>b = fails before taking effect, <c>a = fails after taking effect
+                (fault steps run on Model/CasFault.v, which no theorem covers);
+                `local` = a sequential history for the in-memory backend
+                (fields the driver does not know, e.g. gf=, are ignored)
      ->  steps=<c>:<kind>,...|res=<r;r;..>/<..>|vers=<sid>=<g.st.dt>,..;<sid>=..|final=<sid>=<g.st.dt or none>;..|lres=<r;..>|lfinal=<sid>=..;..
         kind = G | Pc+ | Pc- | Pu+ | Pu-     (GET, PUT create/update, ok/conflict)
-        r    = ok | stale.<expected>.<actual> | notfound | retries
+               with a fault: Gx, Pcx/Pux (not applied), Pc!/Pu! (applied, error reported),
+               Pc~/Pu~ (fail-after on a PUT whose precondition did not hold)
+        r    = ok | stale.<expected>.<actual> | notfound | retries | fault
    R|<rop>;<rop>;...     rop = U id gen data | I id | A | M id nid ngen ndata | Q id
      ->  one token per Q:  <gen>.<data> | none                                   *)
 
@@ -31,8 +37,20 @@ let show_out (o : sout) : string =
   | SStale (e, a) -> Printf.sprintf "stale.%s.%s" (string_of_n e) (string_of_n a)
   | SNotFound -> "notfound"
 
-let show_fin (f : sout fin) : string =
-  match f with FCommit o -> show_out o | FAbort o -> show_out o | FRetries -> "retries"
+let show_oout (o : sout option) : string =
+  match o with Some x -> show_out x | None -> "fault"
+
+let show_fin (f : sout option fin) : string =
+  match f with FCommit o -> show_oout o | FAbort o -> show_oout o | FRetries -> "retries"
+
+(* "<c>", "<c>b", "<c>a" *)
+let parse_step (t : string) : int * faction =
+  let t = String.trim t in
+  let n = String.length t in
+  match t.[n - 1] with
+  | 'b' -> (int_of_string (String.sub t 0 (n - 1)), FailBefore)
+  | 'a' -> (int_of_string (String.sub t 0 (n - 1)), FailAfter)
+  | _ -> (int_of_string t, Proceed)
 
 (* op text -> (sid, sop) *)
 let parse_op (t : string) : int * sop =
@@ -66,12 +84,12 @@ let run_sched (fs : string list) : string =
       let table = Array.init ncl prog_of in
       let rec idx (c : nat) (i : int) : int = match c with O -> i | S c' -> idx c' (i + 1) in
       let pf (c : nat) : sop list = let i = idx c 0 in if i < ncl then table.(i) else [] in
-      (sid, ref (shard_init (List.assoc_opt sid inits) pf))) sids in
+      (sid, ref (shard_finit (List.assoc_opt sid inits) pf))) sids in
   let cur = Array.make ncl 0 in
   let results = Array.make ncl [] in
   let steps = ref [] in
   List.iter (fun t ->
-    let c = int_of_string (String.trim t) in
+    let (c, act) = parse_step t in
     if c >= ncl || cur.(c) >= List.length progs.(c) then steps := Printf.sprintf "%d:-" c :: !steps
     else begin
       let (sid, _) = List.nth progs.(c) cur.(c) in
@@ -81,11 +99,14 @@ let run_sched (fs : string list) : string =
       let kind = match (before.s_cl cn).c_pc with
         | AfterLoad (_, _, snap, _, _, _) -> (match snap with None -> "Pc" | Some _ -> "Pu")
         | _ -> "G" in
-      let after = shard_step before (Req cn) in
+      let after = shard_fstep before (FReq (cn, act)) in
       m := after;
+      let applied = List.length after.s_log > List.length before.s_log in
       let kind =
-        if kind = "G" then kind
-        else if List.length after.s_log > List.length before.s_log then kind ^ "+" else kind ^ "-" in
+        match act with
+        | Proceed -> if kind = "G" then kind else if applied then kind ^ "+" else kind ^ "-"
+        | FailBefore -> kind ^ "x"
+        | FailAfter -> if kind = "G" then kind ^ "x" else if applied then kind ^ "!" else kind ^ "~" in
       steps := Printf.sprintf "%d:%s" c kind :: !steps;
       let d0 = (before.s_cl cn).c_done and d1 = (after.s_cl cn).c_done in
       if List.length d1 > List.length d0 then begin
